@@ -11405,7 +11405,9 @@ func (p *parser) visitAndAppendStmt(stmts []js_ast.Stmt, stmt js_ast.Stmt) []js_
 				// Mark if this function is an empty function
 				hasSideEffectFreeArguments := true
 				for _, arg := range s.Fn.Args {
-					if _, ok := arg.Binding.Data.(*js_ast.BIdentifier); !ok {
+					// A default value is evaluated by the call when the argument is
+					// missing or undefined, so such a call is not free of side effects
+					if _, ok := arg.Binding.Data.(*js_ast.BIdentifier); !ok || arg.DefaultOrNil.Data != nil {
 						hasSideEffectFreeArguments = false
 						break
 					}
